@@ -130,11 +130,231 @@ def configs(tier):
     return cs
 
 
+def getport_configs(tier):
+    if tier == "quick":
+        return [("getport-user8-on-16-K2", dict(user_width=8, K=2), 1_500_000), ("getport-user32-on-16-K1", dict(user_width=32, K=1), 1_500_000)]
+    return [("getport-user8-on-16-K2", dict(user_width=8, K=2), 4_000_000), ("getport-user8-on-16-K3-writes", dict(user_width=8, K=3, ops="W"), 6_000_000),
+            ("getport-user32-on-16-K2", dict(user_width=32, K=2), 6_000_000)]
+
+
 def run(tier, seed, only=None):
     t0 = time.time()
     jobs = []
+    for name, kw, ms in getport_configs(tier):
+        if only and only not in name: continue
+        jobs.append((runner.mc_run, (PROP, "checks.c08", "build_getport", kw), dict(name=name, tier=tier, seed=seed, max_states=ms, post="final_check")))
     for name, kw, ms, md, live in configs(tier):
         if only and only not in name: continue
         jobs.append((runner.mc_run, (PROP, "checks.c08", "build", kw), dict(name=name, tier=tier, seed=seed, max_states=ms, max_depth=md, liveness=LIVE if live else ())))
     res = runner.run_jobs(jobs)
     return runner.finish(PROP, tier, seed, "model_checking", res, t0, ASSUME, RULE, technique="explicit-state BFS over all clock interleavings of the elaborated two-domain netlist with per-stream scoreboards")
+
+
+# ================================================================================================ get_port(clock_domain=..., data_width=...)
+
+class GetPortHarness(Harness):
+    """The port exactly as LiteDRAMCrossbar.get_port(clock_domain="user", data_width=W) composes it (crossbar arbitration + CDC + width
+    converter placed in the user domain) over a stub of the controller interface played by the environment in the sys domain; the user-side
+    master lives in the user domain; every clock interleaving is explored.  Byte-addressed reference as in C07."""
+    multiclock = True
+    WLAT = 1; RLAT = 3          # crossbar: write_latency + 1, read_latency + 1 with the stub's phy settings (0, 2)
+    MINLAT = 2                  # a bank machine strobes no earlier than 2 cycles after it accepted the command (look-ahead FIFO + buffer), so the
+                                # port sees wdata.ready >= 3 + write_latency cycles after acceptance, as with the real core (DESIGN 3.3)
+
+    def __init__(self, user_width=8, K=2, ops="RW", naddr=None):
+        from migen import Module
+        from litedram.common import LiteDRAMInterface
+        from litedram.core.crossbar import LiteDRAMCrossbar
+        class St: pass
+        st = St(); st.phy = St(); st.geom = St()
+        st.phy.nranks = 1; st.phy.dfi_databits = 16; st.phy.nphases = 1; st.phy.read_latency = 2; st.phy.write_latency = 0
+        st.geom.bankbits = 1; st.geom.rowbits = 3; st.geom.colbits = 4
+        st.cmd_buffer_depth = 2; st.address_mapping = "ROW_BANK_COL"
+        itf = LiteDRAMInterface(0, st)
+        top = Module()
+        top.submodules.xbar = xbar = LiteDRAMCrossbar(itf)
+        port = xbar.get_port(clock_domain="user", data_width=user_width)
+        self.itf, self.port = itf, port
+        self.cw = itf.data_width; self.uw = user_width
+        self.bu, self.bc = user_width // 8, self.cw // 8
+        banks = [getattr(itf, "bank%d" % b) for b in range(2)]
+        self.banks = banks
+        sysport = xbar.masters[0]
+        reads = [port.cmd.ready, port.wdata.ready, port.rdata.valid, port.rdata.data, itf.wdata, itf.wdata_we, sysport.wdata.valid]
+        for bk in banks: reads += [bk.valid, bk.we, bk.addr]
+        self.c = c = fhdl.compile_harness(top, reads, clocks={"sys": 10, "user": 10}, ticksets=[t for t in TICKS])
+        ii = c.ii; R = c.rd
+        self.i_valid = ii[port.cmd.valid]; self.i_we = ii[port.cmd.we]; self.i_addr = ii[port.cmd.addr]; self.i_last = ii.get(port.cmd.last); self.i_flush = ii.get(port.flush)
+        self.i_wvalid = ii[port.wdata.valid]; self.i_wdata = ii[port.wdata.data]; self.i_wwe = ii[port.wdata.we]; self.i_rready = ii[port.rdata.ready]
+        self.r_ready = R(port.cmd.ready); self.r_wready = R(port.wdata.ready); self.r_rvalid = R(port.rdata.valid); self.r_rdata = R(port.rdata.data)
+        self.r_wdata = R(itf.wdata); self.r_wwe = R(itf.wdata_we); self.r_sys_wvalid = R(sysport.wdata.valid)
+        self.late = 0
+        self.ib = [dict(ready=ii[bk.ready], wdata_ready=ii[bk.wdata_ready], rdata_valid=ii[bk.rdata_valid], lock=ii.get(bk.lock)) for bk in banks]
+        self.rb = [dict(valid=R(bk.valid), we=R(bk.we), addr=R(bk.addr)) for bk in banks]
+        self.i_rdata = ii[itf.rdata]
+        self.base = list(c.base_inputs); self.base[self.i_rready] = 1
+        self.total_bytes = 2 * max(self.bu, self.bc)
+        self.nuser = self.total_bytes // self.bu if naddr is None else naddr
+        self.K = K
+        alpha = [None]
+        if "R" in ops: alpha += [("R", a) for a in range(self.nuser)]
+        if "W" in ops: alpha += [("W", a) for a in range(self.nuser)]
+        self.alpha = alpha
+        self.cov = {}
+
+    def bval(self, baddr, tag): return 0x80 | ((tag & 3) << 5) | (baddr & 31)
+
+    def uword(self, addr, tag):
+        w = 0
+        for l in range(self.bu): w |= self.bval(addr * self.bu + l, tag) << (8 * l)
+        return w
+
+    def core_init(self, a):
+        w = 0
+        for l in range(self.bc): w |= self.bval(a * self.bc + l, 0) << (8 * l)
+        return w
+
+    # env: (pend, budget, wq, rq, ref bytes, cq: accepted core commands (bank, we, addr), wsched: tuple of (due, bank-relative addr) , rsched: tuple of (due, data), mem)
+    def env0(self):
+        return (None, self.K, (), (), tuple(self.bval(b, 0) for b in range(self.total_bytes)), (), (), (), (), 0)
+
+    def core_addr(self, bank, rca):
+        # inverse of the crossbar mapping for this stub geometry: bank bit sits at colbits - align = 4
+        return (rca & 0xf) | (bank << 4) | ((rca >> 4) << 5)
+
+    def mem_get(self, mem, a):
+        for k, v in mem:
+            if k == a: return v
+        return self.core_init(a)
+
+    def menu(self, S, E):
+        pend, bud, wq, rq, ref, cq, wsched, rsched, mem, late = E
+        out = []
+        for tick in TICKS:
+            ms = (None,)
+            if "user" in tick and pend is None and bud > 0: ms = self.alpha
+            ss = [(0, 0)]
+            if "sys" in tick:
+                ss = [(rdy, srv) for rdy in ((3, 0) if len(cq) < 3 else (0,)) for srv in ((1, 0) if (cq and cq[0][3] >= self.MINLAT) else (0,))]
+            for m in ms:
+                for s_ in ss: out.append((tick, m, s_))
+        return out
+
+    def describe(self, ch):
+        tick, m, (rdy, srv) = ch
+        return "tick %s | %s | bank.ready=%d serve=%d" % ("+".join(tick), "-" if m is None else "%s a%d" % m, rdy, srv)
+
+    def drive(self, S, E, ch):
+        pend, bud, wq, rq, ref, cq, wsched, rsched, mem, late = E
+        tick, m, (rdy, srv) = ch
+        I = list(self.base)
+        cmd = pend if pend is not None else m
+        if cmd is not None:
+            I[self.i_valid] = 1; I[self.i_addr] = cmd[1]; I[self.i_we] = 1 if cmd[0] == "W" else 0
+            if self.i_last is not None: I[self.i_last] = 1
+        elif self.i_flush is not None: I[self.i_flush] = 1
+        if pend is None and m is not None and m[0] == "W": wq = wq + ((m[1], self.K - bud + 1),)
+        if wq:
+            I[self.i_wvalid] = 1; I[self.i_wdata] = self.uword(wq[0][0], wq[0][1]); I[self.i_wwe] = (1 << self.bu) - 1
+        for b in range(2): I[self.ib[b]["ready"]] = (rdy >> b) & 1
+        if srv and cq:
+            b, we, a, age = cq[0]
+            I[self.ib[b]["wdata_ready" if we else "rdata_valid"]] = 1
+        if rsched and rsched[0][0] == 0: I[self.i_rdata] = rsched[0][1]
+        return tuple(I), tick
+
+    def observe(self, S, E, ch, I, O, S2):
+        pend, bud, wq, rq, ref, cq, wsched, rsched, mem, late = E
+        tick, m, (rdy, srv) = ch
+        cmd = pend if pend is not None else m
+        if pend is None and m is not None:
+            tag = self.K - bud + 1; bud -= 1
+            if m[0] == "W": wq = wq + ((m[1], tag),)
+            cmd = m + (tag,)
+        if "user" in tick:
+            if cmd is not None and self.r_ready(S, I, O):
+                if cmd[0] == "W":
+                    ref = list(ref)
+                    for l in range(self.bu): ref[cmd[1] * self.bu + l] = self.bval(cmd[1] * self.bu + l, cmd[2])
+                    ref = tuple(ref)
+                else:
+                    rq = rq + (tuple(ref[cmd[1] * self.bu:(cmd[1] + 1) * self.bu]),)
+                cmd = None
+            if wq and self.r_wready(S, I, O): wq = wq[1:]
+            if self.r_rvalid(S, I, O):
+                if not rq: raise Violation("getport.rdata_without_read", "read word delivered to the user port without an outstanding read")
+                got = self.r_rdata(S, I, O); gb = tuple((got >> (8 * l)) & 0xff for l in range(self.bu))
+                if gb != rq[0]:
+                    self.report("getport.read_mismatch", "user port read %s, expected %s" % (["%02x" % x for x in gb], ["%02x" % x for x in rq[0]]), after_late_write_beat=bool(late))
+                rq = rq[1:]; self.cov["reads"] = self.cov.get("reads", 0) + 1
+        if "sys" in tick:
+            mem_d = dict(mem)
+            # scheduled data transfers
+            nws = []
+            for due, a in wsched:
+                if due == 0:
+                    if not self.r_sys_wvalid(S, I, O):
+                        self.report("getport.write_beat_late", "the controller strobes the write data of core address %d but the beat has not crossed into the sys domain yet "
+                                    "(command and data travel through separate FIFOs; the converter queues the data after the command)" % a, kind="data_lags_command")
+                        late = 1
+                    d = self.r_wdata(S, I, O); we = self.r_wwe(S, I, O); w = mem_d.get(a, self.core_init(a))
+                    for l in range(self.bc):
+                        if (we >> l) & 1: w = (w & ~(0xff << (8 * l))) | (d & (0xff << (8 * l)))
+                    mem_d[a] = w
+                else: nws.append((due - 1, a))
+            wsched = tuple(nws)
+            if rsched and rsched[0][0] == 0: rsched = rsched[1:]
+            rsched = tuple((d - 1, x) for d, x in rsched)
+            # serve the oldest accepted command
+            cq = tuple((b_, w_, a_, min(g_ + 1, self.MINLAT)) for (b_, w_, a_, g_) in cq)
+            if srv and cq:
+                b, we, a, age = cq[0]; cq = cq[1:]
+                if we: wsched = wsched + ((self.WLAT - 1, a),) if self.WLAT > 0 else wsched
+                else: rsched = rsched + ((self.RLAT - 1, mem_d.get(a, self.core_init(a))),)
+                if we and self.WLAT == 0: pass
+            # accept commands offered to the banks
+            for b in range(2):
+                if (rdy >> b) & 1 and self.rb[b]["valid"](S, I, O):
+                    a = self.core_addr(b, self.rb[b]["addr"](S, I, O))
+                    if a * self.bc >= self.total_bytes:
+                        raise Violation("getport.address_out_of_range", "controller-side address %d outside the addressed window" % a)
+                    cq = cq + ((b, self.rb[b]["we"](S, I, O), a, 0),)
+            mem = tuple(sorted(mem_d.items()))
+        # quiescence: everything done -> memory == reference
+        if cmd is None and bud == 0 and not wq and not rq and not cq and not wsched and not rsched:
+            memb = []
+            for a in range(self.total_bytes // self.bc):
+                w = self.mem_get(mem, a); memb += [(w >> (8 * l)) & 0xff for l in range(self.bc)]
+            self.cov["quiescent"] = self.cov.get("quiescent", 0) + 1
+        return (cmd, bud, wq, rq, ref, cq, wsched, rsched, mem, late), 0
+
+    def final_check(self, res):
+        """post pass: states in which the master is done and nothing is outstanding and which are fixed points under (both clocks, idle, flush):
+        memory must equal the reference"""
+        from engine import explore
+        viols = []; fp = 0
+        ch = (TICKS[0], None, (3, 0))
+        for st, i in res.index.items():
+            S, E = st
+            pend, bud, wq, rq, ref, cq, wsched, rsched, mem, late = E
+            if pend is not None or bud or cq or wsched or rsched: continue
+            try: S2, E2, ev, vl = self.step(S, E, ch)
+            except Violation: continue
+            if (S2, E2) != st: continue
+            fp += 1
+            memb = []
+            for a in range(self.total_bytes // self.bc):
+                w = self.mem_get(mem, a); memb += [(w >> (8 * l)) & 0xff for l in range(self.bc)]
+            if tuple(memb) != ref or wq or rq:
+                if not viols:
+                    v = Violation("getport.quiescent_mismatch", "everything idle: memory %s, reference %s, leftover write data %s, unanswered reads %s" % (
+                        ["%02x" % x for x in memb], ["%02x" % x for x in ref], list(wq), len(rq)), after_late_write_beat=bool(late))
+                    v.recoverable = True
+                    viols.append((explore.trace_of_id(res.parent, res.pchoice, i), v))
+        self.cov["quiescent_fixed_points"] = fp
+        return {"violations": viols, "info": {"quiescent_fixed_points": fp}}
+
+    def coverage(self): return dict(self.cov)
+
+
+def build_getport(**kw): return GetPortHarness(**kw)
